@@ -518,17 +518,11 @@ impl RefZone {
         if t < first {
             return Answer::Unjudged("before the first transition");
         }
-        if t >= last.0 {
+        if t > last.0 {
             return match &self.footer {
                 Footer::Rule(r) => Answer::Offset(r.offset_at(t)),
                 Footer::Absent => Answer::Offset(self.types[last.1 as usize].utoff),
-                Footer::Empty => {
-                    if t == last.0 {
-                        Answer::Offset(self.types[last.1 as usize].utoff)
-                    } else {
-                        Answer::Unjudged("after the last transition of a file whose footer is empty")
-                    }
-                }
+                Footer::Empty => Answer::Unjudged("after the last transition of a file whose footer is empty"),
             };
         }
         // latest transition at or before t
